@@ -174,13 +174,22 @@ struct T {
 	{
 		if (grey_zone(p))
 		{
-			g_dead.insert(id); // nothing created
+			if (id >= 0)
+				g_dead.insert(id); // nothing created
 			ctx.label("set_skipped_grey_zone");
 			return;
 		}
-		Val v = Val::i64(id);
-		json_object *jv = json_object_new_int64(id);
-		json_object_set_userdata(jv, (void *)(intptr_t)id, del_cb);
+		// id < 0: the value is JSON null (a NULL pointer), there is nothing to own
+		// (not at the root: a null root is a NULL pointer, which the pointer functions document as invalid input)
+		if (id < 0 && p.empty())
+			ctx.fail("HARNESS", "null value generated for the root");
+		bool nullv = id < 0;
+		Val v = nullv ? Val::null() : Val::i64(id);
+		json_object *jv = nullv ? nullptr : json_object_new_int64(id);
+		if (jv)
+			json_object_set_userdata(jv, (void *)(intptr_t)id, del_cb);
+		if (nullv)
+			ctx.label("set_null_value");
 		Val m2 = model;
 		bool want = ref_set(m2, p, v);
 		errno = 0;
@@ -208,7 +217,7 @@ struct T {
 				ctx.fail("set-fails", how + " " + quote(p) + " failed (rc " + str(rc) + ", errno " + str(errno) + ") but the location can be set in " + show(model, 300));
 			model = m2;
 			same(("after " + how + " " + quote(p)).c_str());
-			if (g_dead.count(id))
+			if (!nullv && g_dead.count(id))
 				ctx.fail("set-ownership", how + " " + quote(p) + " succeeded but the value was destroyed");
 			std::vector<std::string> toks;
 			ptr_tokens(p, toks);
@@ -242,11 +251,14 @@ struct T {
 				                             "; tree is now " + show(got, 300));
 			}
 			same(("after failed " + how + " " + quote(p)).c_str());
-			if (g_dead.count(id))
-				ctx.fail("set-ownership", "failed " + how + " " + quote(p) + " destroyed the value (ownership must stay with the caller)");
-			json_object_put(jv);
-			if (!g_dead.count(id))
-				ctx.fail("set-ownership", "after a failed " + how + " the caller's put did not destroy the value: the tree kept a reference");
+			if (!nullv)
+			{
+				if (g_dead.count(id))
+					ctx.fail("set-ownership", "failed " + how + " " + quote(p) + " destroyed the value (ownership must stay with the caller)");
+				json_object_put(jv);
+				if (!g_dead.count(id))
+					ctx.fail("set-ownership", "after a failed " + how + " the caller's put did not destroy the value: the tree kept a reference");
+			}
 		}
 	}
 };
@@ -413,7 +425,7 @@ void run_case(Choices &c, Ctx &ctx)
 		default: p = base + "/18446744073709551615"; break;
 		}
 		ctx.note("set " + quote(p));
-		t.set(p, id++, (int)c.pickn(3));
+		t.set(p, c.coin(10) && !p.empty() ? -1 : id++, (int)c.pickn(3));
 		ctx.label("set");
 		nt = true;
 	}
